@@ -45,8 +45,9 @@ def rules(t):
             if n["k"] != "call" or not n["args"]: continue
             if not t.rooted_at_field(t.arg(c, 0), "connections"): continue
             m = method_of(callee_name(n))
+            if "VacantEntry" in callee_name(n) or "OccupiedEntry" in callee_name(n): continue     # the key was given to entry(key), checked there
             r.site(c, m)
-            if m in ("get", "get_mut", "remove", "contains_key", "insert"):
+            if m in ("get", "get_mut", "remove", "contains_key", "insert", "entry"):
                 k = strip(t.arg(c, 1))
                 if not (isinstance(k, tuple) and k[0] == "param" and k[1] == pid[0]): r.bad(f"{f.path}|{m}|key", c, f"{short(f.path)} accesses connections with key {fmt(k)[:40]}, not its client_id")
             elif m in ("values_mut", "iter_mut", "values", "iter", "clear", "retain", "drain"):
